@@ -205,6 +205,40 @@ def rule_helper_contract(ctx, rep):
     rep.check("R-HELPER-CONTRACT", ua.qname, ua.loc(), ok, "only-args", "update_arg_target changes more than the argument list")
 
 
+def rule_args_info_fresh(ctx, rep, rule_id="R-ARGS-INFO-FRESH"):
+    rep.rule(
+        rule_id,
+        "replace_args consumes its args_info list (`del args_info[idx]` for every keyword it finds): every call site passes a list built "
+        "for that call (literal, local, helper result), never a class- or module-level list — a shared list loses its entries after the "
+        "first call that matches them, and later calls silently stop adding the safe argument",
+        min_instances=8,
+    )
+    ra = ctx.prog.func("codemodder.codemods.libcst_transformer.LibcstResultTransformer.replace_args")
+    consumes = any(isinstance(n, ast.Delete) and "args_info" in unparse(n) for n in walk_no_nested(ra.node))
+    n = 0
+    for fn in ctx.prog.functions.values():
+        r = ctx.resolver(fn)
+        for c in walk_no_nested(fn.node):
+            if isinstance(c, ast.Call) and last_attr(c.func) == "replace_args" and len(c.args) >= 2 and fn.qname != ra.qname:
+                n += 1
+                a = c.args[1]
+                v = r.expand(a)
+                shared = False
+                if isinstance(v, ast.Attribute) and isinstance(v.value, ast.Name) and v.value.id in ("self", "cls"):
+                    shared = fn.cls is not None and ctx.prog.lookup_attr(fn.cls.qname, v.attr) is not None
+                elif isinstance(v, ast.Name) and v.id in fn.module.constants and v.id not in fn.params():
+                    r.single_assignments()
+                    shared = v.id not in r._assign_counts
+                elif isinstance(v, ast.Attribute):
+                    q = ctx.prog.resolve_expr_name(fn.module, v)
+                    shared = bool(q) and (q.rpartition(".")[0] in ctx.prog.classes or q.rpartition(".")[0] in ctx.prog.modules)
+                rep.check(rule_id, fn.qname, fn.loc(c), not (shared and consumes), f"args_info:{unparse(a)[:30]}",
+                          f"`{unparse(c)[:60]}` passes the shared list `{unparse(v)[:40]}` to replace_args, which deletes matched entries from it: "
+                          "after the first call site that already has the keyword, the entry is gone for every later call in the process")
+    if n < 8:
+        raise AnalysisError(f"only {n} replace_args call sites found")
+
+
 def check(ctx, rep):
     rep.explanation = (
         "Sibling agreement between documentation and code: the tokens each hardening transformer introduces by name are recovered "
@@ -214,4 +248,5 @@ def check(ctx, rep):
     rule_doc_delta(ctx, rep)
     rule_args(ctx, rep)
     rule_helper_contract(ctx, rep)
+    rule_args_info_fresh(ctx, rep)
     rep.not_covered += ["preservation of every token of arbitrary call shapes through libcst", "argument order for star-args"]
